@@ -467,6 +467,15 @@ impl<R: RtT> Machine for M04<R> {
                     Poll::Ready(_) => Some(Leave::Quit),
                 }
             }
+            "cancel" => {
+                // drop the suspended future where this thread stands: its span guard completes from
+                // Drop, outside its frame
+                let k = step["k"].as_u64().unwrap();
+                let task = self.tasks.lock().unwrap().remove(&k).unwrap_or_else(|| tool_error("task is not idle"));
+                drop(task);
+                reply_ok();
+                None
+            }
             "event" => {
                 emit::emit!(rt: self.rt.get(), "event");
                 reply_ok();
@@ -487,6 +496,9 @@ impl<R: RtT> Machine for M04<R> {
 fn opt(v: &Value) -> Option<String> {
     v.as_str().map(|s| s.to_string())
 }
+
+/// Finding F29 (open): the signature the known-findings file matches starts with this.
+const F29: &str = "C04:F29:cancelled span completes with the ambient ids";
 
 /// One runtime form with its judge state.
 struct Runner<R: RtT> {
@@ -511,6 +523,7 @@ impl<R: RtT> CaseRunner for Runner<R> {
         let steps = case["steps"].as_array().unwrap_or_else(|| tool_error("case without steps"));
         let nthreads = steps[0]["exp"].as_array().map(|a| a.len()).unwrap_or(1);
         let mut consumed = 0usize;
+        let mut notes: Vec<Value> = Vec::new();
         let mut o = run_case(m, nthreads, steps, |_, step, rep, obs| {
                 if step["op"] == "panic" {
                     if rep["panicked"].as_str() != Some(SCRIPTED_PANIC) {
@@ -531,11 +544,45 @@ impl<R: RtT> CaseRunner for Runner<R> {
                 let rows: Vec<Row> = m.rows.0.lock().unwrap()[consumed..].to_vec();
                 consumed += rows.len();
                 let want = step.get("emits").and_then(|e| e.as_array()).cloned().unwrap_or_default();
-                if rows.len() != want.len() {
+                // fault injection for testing the classification below (never set by the check):
+                // VERIF_SELFTEST_CANCEL=extra duplicates the cancelled span's event, =wrongid gives it a foreign trace id
+                let mut rows = rows;
+                if step["op"] == "cancel" && !rows.is_empty() {
+                    match std::env::var("VERIF_SELFTEST_CANCEL").ok().as_deref() {
+                        Some("extra") => rows.push(rows[0].clone()),
+                        Some("wrongid") => rows[0].trace = Some("t:ffffffffffffffffffffffffffffffff".to_string()),
+                        _ => {}
+                    }
+                }
+                if step["op"] == "cancel" {
+                    if rows.len() != want.len() || rows.iter().any(|r| !r.span) {
+                        return Some(json!({"what": "a cancelled span did not complete exactly once (one span event if enabled, none if rejected)",
+                            "detail": {"want": want, "got": format!("{rows:?}")}}));
+                    }
+                    if let (Some(r), Some(w)) = (rows.first(), want.first()) {
+                        // the statement: its own id, its parent, its tree's trace id
+                        let mut own = bij.clone();
+                        if unify_ids(&mut own, &w["ids"], &r.trace, &r.id, &r.parent) {
+                            *bij = own;
+                        } else {
+                            // the one known way to be wrong (finding F29): exactly the ids that are
+                            // ambient where it was dropped.  Anything else is some other defect.
+                            let t = step["t"].as_u64().unwrap_or(1) as usize - 1;
+                            let mut amb = bij.clone();
+                            if unify_ids(&mut amb, &step["exp"][t], &r.trace, &r.id, &r.parent) {
+                                notes.push(json!({"what": F29, "form": form, "where": step["where"],
+                                    "want": w["ids"], "ambient": step["exp"][t], "got": format!("{r:?}")}));
+                            } else {
+                                return Some(json!({"what": "a cancelled span's event carries ids that are neither its own nor the ambient ones",
+                                    "detail": {"want": w["ids"], "ambient": step["exp"][t], "got": format!("{r:?}"), "known": bij.dump()}}));
+                            }
+                        }
+                    }
+                } else if rows.len() != want.len() {
                     return Some(json!({"what": "number of emitted records differs",
                         "detail": {"want": want, "got": format!("{rows:?}")}}));
                 }
-                for (r, w) in rows.iter().zip(want.iter()) {
+                for (r, w) in rows.iter().zip(want.iter()).filter(|_| step["op"] != "cancel") {
                     if r.span != (w["kind"] == "span") {
                         return Some(json!({"what": "emitted record has the wrong kind", "detail": {"want": w, "got": format!("{r:?}")}}));
                     }
@@ -565,6 +612,7 @@ impl<R: RtT> CaseRunner for Runner<R> {
         if let Some(mm) = o.mismatch.as_mut() {
             mm["form"] = json!(form);
         }
+        o.notes = notes;
         m.frames.lock().unwrap().clear();
         m.tasks.lock().unwrap().clear();
         o
